@@ -67,7 +67,7 @@ func pow8(i int) int64 {
 func svKvTok(kvs []*goatorepo.KeyValue) int64 {
 	var tok int64
 	for _, kv := range kvs {
-		if kv.Key == "seq" || strings.EqualFold(kv.Key, "grpc-timeout") || strings.HasSuffix(strings.ToLower(kv.Key), "-bin") {
+		if kv.Key == "seq" || strings.EqualFold(kv.Key, "grpc-timeout") || svOddKey(kv.Key) || strings.HasSuffix(strings.ToLower(kv.Key), "-bin") {
 			continue
 		}
 		var i int
@@ -79,10 +79,24 @@ func svKvTok(kvs []*goatorepo.KeyValue) int64 {
 	return tok
 }
 
+// metadata keys of the "key:<n>" header kind (FrameSpec.Hdr): one extra KeyValue with the n-th of these keys and a value
+// that decodes under any reading; they are no part of the metadata token
+var svOddKeys = []string{"", ":", ":path", ":authority", "-bin", "-BIN", "UPPER-Case", "x y", " lead", "trail ", "ctl\x01key", "tab\tkey", "nl\nkey",
+	"n\u00f6n-ascii", "\xff\xfe", "k", "k-1", "grpc-", "grpc-status", "content-type", "user-agent", strings.Repeat("L", 65536), strings.Repeat("-", 300) + "-bin"}
+
+func svOddKey(k string) bool {
+	for _, o := range svOddKeys {
+		if strings.ToLower(o) == strings.ToLower(k) {
+			return true
+		}
+	}
+	return false
+}
+
 func svMDTok(md metadata.MD) int64 {
 	var tok int64
 	for k, vs := range md {
-		if k == "seq" || k == "grpc-timeout" || strings.HasSuffix(k, "-bin") {
+		if k == "seq" || k == "grpc-timeout" || svOddKey(k) || strings.HasSuffix(k, "-bin") {
 			continue
 		}
 		var i int
@@ -186,6 +200,12 @@ func svMdvCoq(s string) string {
 		return "None"
 	case s == "bad":
 		return "(Some MdBad)"
+	case strings.HasPrefix(s, "key:"):
+		// an odd metadata KEY (empty, pseudo-header, "-bin" alone, control characters, 64 KiB ...) with a harmless value,
+		// next to ordinary metadata with token <t> ("key:<n>:<t>"): the metadata decodes, the key is not part of the token
+		var n, t int64
+		fmt.Sscanf(s, "key:%d:%d", &n, &t)
+		return fmt.Sprintf("(Some (MdOk %s))", coqZ(t))
 	case strings.HasPrefix(s, "bin:") || strings.HasPrefix(s, "BIN:"):
 		// a "-bin" metadata value: decodable iff it is padded URL-safe base64 (encoding/base64, the harness's own call)
 		if _, err := base64.URLEncoding.DecodeString(s[4:]); err != nil {
@@ -220,6 +240,10 @@ func (f *FrameSpec) build(seq int) *Rpc {
 		h := &goatorepo.RequestHeader{Method: f.Method, Source: f.Src, Destination: f.Dst}
 		if f.Hdr == "bad" {
 			h.Headers = append(h.Headers, badMD...)
+		} else if strings.HasPrefix(f.Hdr, "key:") {
+			var n, t int64
+			fmt.Sscanf(f.Hdr, "key:%d:%d", &n, &t)
+			h.Headers = append(svMdKVs(t), &goatorepo.KeyValue{Key: svOddKeys[n], Value: "QQ=="})
 		} else if strings.HasPrefix(f.Hdr, "bin:") {
 			h.Headers = append(h.Headers, &goatorepo.KeyValue{Key: "x-bin", Value: f.Hdr[4:]})
 		} else if strings.HasPrefix(f.Hdr, "BIN:") {
